@@ -535,10 +535,32 @@ func genC19(t *rapid.T) c19Case {
 		base := time.Date(2024, 2, 29, 23, 59, 59, 0, time.UTC)
 		off := rapid.SampledFrom([]int64{0, 0, 1, -1, 1000, -1000, 1e9, -1e9, 86400e9, 7 * 3600e9, -5 * 3600e9}).Draw(t, "off")
 		locs := []string{"UTC", "E7", "W5"}
-		c.L = c19Operand{Kind: "time", T: base.Format(time.RFC3339Nano), Loc: rapid.SampledFrom(locs).Draw(t, "lloc"),
-			Mono: rapid.Bool().Draw(t, "lmono"), Wrap: rapid.SampledFrom([]string{"", "", "ptr", "iface"}).Draw(t, "lw")}
-		c.R = c19Operand{Kind: "time", T: base.Add(time.Duration(off)).Format(time.RFC3339Nano), Loc: rapid.SampledFrom(locs).Draw(t, "rloc"),
-			Mono: rapid.Bool().Draw(t, "rmono"), Wrap: rapid.SampledFrom([]string{"", "", "ptr", "iface"}).Draw(t, "rw")}
+		lt, rt2 := base, base.Add(time.Duration(off))
+		far := false
+		if rapid.IntRange(0, 3).Draw(t, "far_times") == 0 {
+			// instants far from today (sentinels such as "never expires", historical dates, the zero time,
+			// and the limits of the int64-nanosecond range): no monotonic reading can denote them
+			far = true
+			pool := []time.Time{
+				{}, time.Date(1500, 1, 1, 0, 0, 0, 0, time.UTC), time.Date(1677, 9, 21, 0, 12, 43, 145224192, time.UTC), time.Date(1677, 9, 21, 0, 12, 43, 145224191, time.UTC),
+				time.Date(1700, 1, 1, 0, 0, 0, 0, time.UTC), time.Date(1969, 12, 31, 23, 59, 59, 999999999, time.UTC), time.Unix(0, 0).UTC(), base,
+				time.Date(2262, 4, 11, 23, 47, 16, 854775807, time.UTC), time.Date(2262, 4, 11, 23, 47, 16, 854775808, time.UTC), time.Date(2300, 1, 1, 0, 0, 0, 0, time.UTC),
+				time.Date(9999, 12, 31, 23, 59, 59, 0, time.UTC),
+			}
+			lt = rapid.SampledFrom(pool).Draw(t, "lfar")
+			if rapid.Bool().Draw(t, "rfar_same") {
+				rt2 = lt.Add(time.Duration(rapid.SampledFrom([]int64{0, 1, -1, 1e9}).Draw(t, "far_off")))
+				if y := rt2.Year(); y < 1 || y > 9999 {
+					rt2 = lt // not expressible in the replay file's RFC 3339 form
+				}
+			} else {
+				rt2 = rapid.SampledFrom(pool).Draw(t, "rfar")
+			}
+		}
+		c.L = c19Operand{Kind: "time", T: lt.Format(time.RFC3339Nano), Loc: rapid.SampledFrom(locs).Draw(t, "lloc"),
+			Mono: !far && rapid.Bool().Draw(t, "lmono"), Wrap: rapid.SampledFrom([]string{"", "", "ptr", "iface"}).Draw(t, "lw")}
+		c.R = c19Operand{Kind: "time", T: rt2.Format(time.RFC3339Nano), Loc: rapid.SampledFrom(locs).Draw(t, "rloc"),
+			Mono: !far && rapid.Bool().Draw(t, "rmono"), Wrap: rapid.SampledFrom([]string{"", "", "ptr", "iface"}).Draw(t, "rw")}
 	}
 	c.GRL = rapid.IntRange(0, 3).Draw(t, "grl") > 0
 	return c
